@@ -33,6 +33,9 @@ var verifCorpus = []verifStmt{
 	{"update t2 set a = 3", true, false, false, false, false, false}, // table rules cover SELECT sources and INSERT targets only
 	{"delete from t1 where a = 4", true, false, false, false, false, false},
 	{"select a from t1 where b = 1 )))(((", false, false, false, false, false, false},
+	// two statements in one packet are not one parseable statement, whatever the first one is
+	{"select a from t1 where b = 1; delete from t2", false, false, false, false, false, false},
+	{"select a from t1 where b = 1 ; select a from t2 where b = 1", false, false, false, false, false, false},
 }
 
 // handler kinds
